@@ -24,7 +24,7 @@ func intrinsicName(fn *ssa.Function) string {
 	}
 	switch n {
 	case "vs_assume", "vs_assert", "vs_old", "vs_all", "vs_any", "vs_fresh", "vs_modifies",
-		"vs_visited", "vs_cover", "vs_same", "vs_done", "vs_pos", "vs_called", "vs_callResult", "vs_callArg", "vs_callOrder", "vs_eq":
+		"vs_visited", "vs_ranged", "vs_cover", "vs_same", "vs_done", "vs_pos", "vs_called", "vs_callResult", "vs_callArg", "vs_callOrder", "vs_eq":
 		return n
 	}
 	return ""
